@@ -21,7 +21,7 @@ import loadprop
 PID = 'C13'
 MODNAME = 'C13'
 PROPS_FILE = 'Props/C13.v'
-COQ_FILES = ['Proofs/Invariance.v', 'Props/C13.v']
+COQ_FILES = ['Proofs/Invariance.v', 'Proofs/Marks.v', 'Props/C13.v']
 ASSUMPTIONS = [
     'equal outcome = equal value (extra attributes compared as a mapping, i.e. up to order, when keys were reordered) or failure in both',
     'style invariance is structural in the model (nodes have no style); that the implementation reads no style is what the tie checks',
